@@ -290,6 +290,12 @@ theorem remove_is_the_source_u32 {D : Type} (g : Rng D) (fuel e sz cap : Nat) (a
 
 /-! ### the source's `contains`, whole: dispatch on the representation, then the translated arm -/
 
+/-- the layout dispatch at the end of `internal()` and of `internal_mut()` (which of `Big` / `Dense` / `Heap` a heap
+block's `bits` word selects), translated on every run, is the model's `isDense` / `isPlain` -/
+theorem dispatch_is_the_source_u32 (bits : Nat) :
+    Gen.layout_32 bits = (if isDense cfg32 bits then 1 else if isPlain cfg32 bits then 0 else 2) ∧
+    Gen.layout_mut_32 bits = Gen.layout_32 bits := layout_32_eq bits
+
 /-- `SetU32::contains` as it is in the current source: `internal()` tells the five views apart (modelled by the
 constructors of `Rp` and the `bits` word: 32 dense, 1..31 bitmap table, otherwise plain table), then the arm's code
 as translated on every run -/
@@ -297,9 +303,10 @@ def srcContains32 : Rp → Nat → Bool
   | .empty, _ => false
   | .stack t, e => Gen.tiny_contains_32 t.sz t.bits e
   | .heap _ _ bits a, e =>
-    if bits = 32 then Gen.contains_dense_32 e a
-    else if 0 < bits ∧ bits < 32 then Gen.contains_heap_32 e bits a
-    else Gen.contains_big_32 e bits a
+    match Gen.layout_32 bits with          -- the dispatch at the end of `internal()`, translated: 0 `Big`, 1 `Dense`, 2 `Heap`
+    | 0 => Gen.contains_big_32 e bits a
+    | 1 => Gen.contains_dense_32 e a
+    | _ => Gen.contains_heap_32 e bits a
 
 /-- it is the model's `contains` on every well-formed representation … -/
 theorem source_contains_is_model_u32 {r : Rp} (wf : WF cfg32 r) (e : Nat) (he : e < 2 ^ 32)
@@ -308,15 +315,11 @@ theorem source_contains_is_model_u32 {r : Rp} (wf : WF cfg32 r) (e : Nat) (he : 
   | empty => rfl
   | stack t => exact tiny_contains_32_eq t e he
   | heap sz cap bits a =>
-    simp only [srcContains32]
-    split
-    · rename_i hb
-      subst hb
+    rcases layout_32_cases bits with ⟨hb, hl⟩ | ⟨hb, hl⟩ | ⟨hb, hl⟩ <;> simp only [srcContains32, hl]
+    · subst hb
       exact contains_dense_32_eq e sz cap a (heap_cap_of_wf cfg32_ok wf).1
-    · split
-      · rename_i hb
-        exact contains_heap_32_eq e sz cap bits a he hb (by have := (heap_cap_of_wf cfg32_ok wf).1; simp [capacity] at hn; omega)
-      · exact contains_big_32_eq e sz cap bits a (by omega) (by have := (heap_cap_of_wf cfg32_ok wf).1; simp [capacity] at hn; omega)
+    · exact contains_big_32_eq e sz cap bits a hb (by have := (heap_cap_of_wf cfg32_ok wf).1; simp [capacity] at hn; omega)
+    · exact contains_heap_32_eq e sz cap bits a he hb (by have := (heap_cap_of_wf cfg32_ok wf).1; simp [capacity] at hn; omega)
 
 /-- … hence **membership**: the `contains` of the current source, run on the words of any well-formed set (every
 layout), answers true exactly for the members -/
